@@ -1,11 +1,357 @@
-// In-crate verification harness (stub; see /verif/docs/SLICE_GUIDE.md).
+// In-crate verification harness for area `block`, sequencer side (property C07: what the
+// sequencer commits to, stores and serves).
+//
+// Hooked as `grpc::sequencer::verif` of astria-sequencer (feature `verif-grpc`, cfg(test)).
+//
+// What is run (always the REAL code):
+//   * `proposal::commitment::generate_rollup_datas_commitment::<true>` on real
+//     `CheckedTransaction`s (several transactions, several actions each, transfers in between)
+//     and a real deposit map                                          (`block commit …`);
+//   * `SequencerBlockBuilder::try_build` → `StateWriteExt::put_sequencer_block` into a cnidarium
+//     storage → commit → the gRPC handler `get_sequencer_block`        (`block reset …`);
+//   * the gRPC handler `get_filtered_sequencer_block` for every subset of at most 4 ids of
+//     (present ∪ absent), in several orders, with repetitions          (`block grpcfilter …`);
+//   * the client-side `try_from_raw` of everything that was served     (`block full|filtered …`).
+//
+// Line protocol: see /verif/lean/Driver/BlockArea.lean.
 #![allow(clippy::pedantic, clippy::all, dead_code, unused_imports)]
 
 #[path = "/verif/harness/common.rs"]
 mod common;
+#[path = "/verif/harness/block_codec.rs"]
+mod codec;
+
+use std::{
+    collections::HashMap,
+    sync::Arc,
+};
+
+use astria_core::{
+    generated::astria::{
+        primitive::v1 as rawp,
+        sequencerblock::v1 as raw,
+    },
+    primitive::v1::RollupId,
+    protocol::transaction::v1::action::{
+        RollupDataSubmission,
+        Transfer,
+    },
+    sequencerblock::v1::{
+        block::{
+            Deposit,
+            FilteredSequencerBlock,
+        },
+        SequencerBlock,
+    },
+    Protobuf as _,
+};
+use bytes::Bytes;
+use cnidarium::StateDelta;
+use codec::*;
+use common::{
+    hex,
+    no_panic,
+    unhex,
+    Rng,
+    Trace,
+};
+use tonic::Request;
+
+use super::{
+    GetFilteredSequencerBlockRequest,
+    GetSequencerBlockRequest,
+    SequencerServer,
+    SequencerService as _,
+};
+use crate::{
+    app::StateWriteExt as _,
+    grpc::StateWriteExt as _,
+    mempool::Mempool,
+    proposal::commitment::{
+        generate_rollup_datas_commitment,
+        GeneratedCommitments,
+    },
+    test_utils::{
+        astria_address,
+        nria,
+        Fixture,
+        ALICE,
+        BOB,
+    },
+};
+
+struct Session {
+    server: Option<Arc<SequencerServer>>,
+    _storage: Option<cnidarium::TempStorage>,
+    height: u64,
+}
+
+struct Exec {
+    rt: tokio::runtime::Runtime,
+    fixture: Option<Fixture>,
+    session: Session,
+}
+
+fn res_full(r: &raw::SequencerBlock) -> String {
+    let input = r.clone();
+    match no_panic(move || SequencerBlock::try_from_raw(input)) {
+        None => "panic".to_string(),
+        Some(Err(e)) => format!("err:{}", err_kind(&format!("{e:?}"))),
+        Some(Ok(b)) => {
+            let back = b.into_raw();
+            if &back == r {
+                "ok same".to_string()
+            } else {
+                format!("ok {}", block_s(&back))
+            }
+        }
+    }
+}
+
+fn res_filtered(r: &raw::FilteredSequencerBlock) -> String {
+    let input = r.clone();
+    match no_panic(move || FilteredSequencerBlock::try_from_raw(input)) {
+        None => "panic".to_string(),
+        Some(Err(e)) => format!("err:{}", err_kind(&format!("{e:?}"))),
+        Some(Ok(b)) => {
+            let back = b.into_raw();
+            if &back == r {
+                "ok same".to_string()
+            } else {
+                format!("ok {}", filtered_s(&back))
+            }
+        }
+    }
+}
+
+impl Exec {
+    fn exec(&mut self, op: &str) -> String {
+        let t: Vec<&str> = op.split(' ').filter(|x| !x.is_empty()).collect();
+        assert_eq!(t[0], "block");
+        let res = match t[1] {
+            "reset" => {
+                let spec = spec_p(t[2]);
+                let s2 = spec.clone();
+                match no_panic(move || build(&s2)) {
+                    None => {
+                        self.session.server = None;
+                        "panic".to_string()
+                    }
+                    Some(Err(k)) => {
+                        self.session.server = None;
+                        format!("err:{k}")
+                    }
+                    Some(Ok(block)) => {
+                        // store, commit, serve
+                        let height = u64::from(spec.height);
+                        let (storage, server) = self.rt.block_on(async {
+                            let storage = cnidarium::TempStorage::new().await.unwrap();
+                            let metrics = Box::leak(Box::new(telemetry::Metrics::noop_metrics(&()).unwrap()));
+                            let mempool = Mempool::new(metrics, 100, 100);
+                            let mut state_tx = StateDelta::new(storage.latest_snapshot());
+                            state_tx.put_block_height(height).unwrap();
+                            state_tx.put_sequencer_block(block).unwrap();
+                            storage.commit(state_tx).await.unwrap();
+                            let server = Arc::new(SequencerServer::new(
+                                (*storage).clone(),
+                                mempool,
+                                astria_core::upgrades::v1::Upgrades::default(),
+                            ));
+                            (storage, server)
+                        });
+                        let served = self.rt.block_on(server.clone().get_sequencer_block(Request::new(GetSequencerBlockRequest {
+                            height,
+                        })));
+                        self.session = Session {
+                            server: Some(server),
+                            _storage: Some(storage),
+                            height,
+                        };
+                        match served {
+                            Ok(r) => format!("ok {}", block_s(&r.into_inner())),
+                            Err(status) => format!("grpc-error:{:?}", status.code()),
+                        }
+                    }
+                }
+            }
+            "grpcfilter" => match &self.session.server {
+                None => "no-block".to_string(),
+                Some(server) => {
+                    let rollup_ids = ids_p(t[2]);
+                    let served = self.rt.block_on(server.clone().get_filtered_sequencer_block(Request::new(
+                        GetFilteredSequencerBlockRequest {
+                            height: self.session.height,
+                            rollup_ids,
+                        },
+                    )));
+                    match served {
+                        Ok(r) => filtered_s(&r.into_inner()),
+                        Err(status) => format!("grpc-error:{:?}", status.code()),
+                    }
+                }
+            },
+            "full" => res_full(&block_p(t[3])),
+            "filtered" => res_filtered(&filtered_p(t[3])),
+            "commit" => {
+                // block commit txs=<n1,n2,…|.> <spec>: the submissions of the spec, split into
+                // transactions of n1, n2, … rollup data submissions (a transfer after every second one)
+                let sizes: Vec<usize> = match t[2].strip_prefix("txs=") {
+                    Some(".") | None => vec![],
+                    Some(s) => s.split(',').map(|x| x.parse().unwrap()).collect(),
+                };
+                let spec = spec_p(t[3]);
+                if self.fixture.is_none() {
+                    self.fixture = Some(self.rt.block_on(Fixture::default_initialized()));
+                }
+                let fixture = self.fixture.as_ref().unwrap();
+                let mut deposits: HashMap<RollupId, Vec<Deposit>> = HashMap::new();
+                for (id, ds) in &spec.deps {
+                    deposits.insert(RollupId::new(*id), ds.iter().map(|d| decode_deposit(d)).collect());
+                }
+                let rt = &self.rt;
+                let mut txs = vec![];
+                let mut it = spec.subs.iter();
+                for (k, n) in sizes.iter().enumerate() {
+                    let mut b = fixture.checked_tx_builder().with_signer(if k % 2 == 0 { ALICE.clone() } else { BOB.clone() }).with_nonce((k / 2) as u32);
+                    for j in 0..*n {
+                        let (id, data) = it.next().expect("sizes sum to the number of submissions");
+                        b = b.with_action(RollupDataSubmission {
+                            rollup_id: RollupId::new(*id),
+                            data: Bytes::from(data.clone()),
+                            fee_asset: nria().into(),
+                        });
+                        if j % 2 == 1 {
+                            b = b.with_action(Transfer {
+                                to: astria_address(&[7u8; 20]),
+                                amount: 1,
+                                asset: nria().into(),
+                                fee_asset: nria().into(),
+                            });
+                        }
+                    }
+                    if *n == 0 {
+                        b = b.with_action(Transfer {
+                            to: astria_address(&[7u8; 20]),
+                            amount: 1,
+                            asset: nria().into(),
+                            fee_asset: nria().into(),
+                        });
+                    }
+                    txs.push(rt.block_on(b.build()));
+                }
+                assert!(it.next().is_none(), "sizes sum to the number of submissions");
+                let GeneratedCommitments {
+                    rollup_datas_root,
+                    rollup_ids_root,
+                } = generate_rollup_datas_commitment::<true>(&txs, deposits);
+                format!("{} {}", hex(&rollup_datas_root), hex(&rollup_ids_root))
+            }
+            other => format!("bad-op:{other}"),
+        };
+        format!("{op} => {res}")
+    }
+}
+
+fn subsets_upto4(pool: &[rawp::RollupId]) -> Vec<Vec<rawp::RollupId>> {
+    let n = pool.len();
+    let mut out = vec![];
+    for mask in 0u32..(1 << n) {
+        if mask.count_ones() <= 4 {
+            out.push((0..n).filter(|i| mask & (1 << i) != 0).map(|i| pool[i].clone()).collect());
+        }
+    }
+    out
+}
+
+fn generate(rng: &mut Rng, ex: &mut Exec, trace: &mut Trace) {
+    let sessions = if common::is_thorough() { 150 } else { 30 };
+    for n in 0..sessions {
+        let mut spec = gen_spec(rng, n, 100 + n as u32);
+        // the sequencer refuses empty rollup data submissions (CheckedTransaction::new)
+        for (_, d) in spec.subs.iter_mut() {
+            if d.is_empty() {
+                d.push(0);
+            }
+        }
+        let (r1, r2) = honest_roots(&spec.subs, &spec.deps);
+        spec.r1 = r1;
+        spec.r2 = r2;
+
+        // ---- the proposer's commitments ----
+        let mut sizes: Vec<usize> = vec![];
+        let mut left = spec.subs.len();
+        while left > 0 {
+            let k = (rng.range(0, 3) as usize).min(left);
+            sizes.push(k);
+            left -= k;
+        }
+        if rng.chance(30) {
+            sizes.push(0);
+        }
+        let sizes_s = if sizes.is_empty() {
+            ".".to_string()
+        } else {
+            sizes.iter().map(|x| x.to_string()).collect::<Vec<_>>().join(",")
+        };
+        trace.line(&ex.exec(&format!("block commit txs={sizes_s} {}", spec_s(&spec))));
+
+        // ---- store and serve ----
+        let line = ex.exec(&format!("block reset {}", spec_s(&spec)));
+        let served = line.split(" => ").nth(1).unwrap().to_string();
+        trace.line(&line);
+        let Some(dump) = served.strip_prefix("ok ") else { continue };
+        let honest = block_p(dump);
+        trace.line(&ex.exec(&format!("block full served {}", block_s(&honest))));
+
+        let mut pool: Vec<rawp::RollupId> = honest.rollup_transactions.iter().take(5).map(|r| r.rollup_id.clone().unwrap()).collect();
+        pool.push(rawp::RollupId {
+            inner: Bytes::from(vec![0xee; 32]),
+        });
+        for (k, sub) in subsets_upto4(&pool).iter().enumerate() {
+            let mut req = sub.clone();
+            if k % 3 == 1 {
+                req.reverse();
+            }
+            if k % 7 == 3 && !req.is_empty() {
+                req.push(req[0].clone()); // requested twice
+            }
+            let line = ex.exec(&format!("block grpcfilter {}", ids_s(&req)));
+            let dump = line.split(" => ").nth(1).unwrap().to_string();
+            trace.line(&line);
+            if !dump.starts_with("grpc-error") {
+                trace.line(&ex.exec(&format!("block filtered served {dump}")));
+            }
+        }
+        // malformed request
+        trace.line(&ex.exec(&format!("block grpcfilter {}", hex(&[1u8; 31]))));
+    }
+}
 
 #[test]
 fn driver() {
-    let trace = common::Trace::from_env();
+    if std::env::var("VERIF_SHOW_PANICS").is_err() {
+        common::silence_panics();
+    }
+    let mut trace = Trace::from_env();
+    let mut rng = Rng::from_env();
+    let mut ex = Exec {
+        rt: tokio::runtime::Builder::new_multi_thread().worker_threads(2).enable_all().build().unwrap(),
+        fixture: None,
+        session: Session {
+            server: None,
+            _storage: None,
+            height: 0,
+        },
+    };
+    if let Some(ops) = common::replay_lines() {
+        for op in ops {
+            trace.line(&ex.exec(&op));
+        }
+    } else {
+        for op in common::corpus_lines() {
+            trace.line(&ex.exec(&op));
+        }
+        generate(&mut rng, &mut ex, &mut trace);
+    }
     trace.finish();
 }
